@@ -108,3 +108,20 @@ class Hexnum_as_real(Contract):
 
     def raises(self):
         return {'ValueError': not hex_ok(self.val)}
+
+
+class RationalVal_as_real(Contract):
+    target = 'fpy2.ast.fpyast:RationalVal.as_real'
+    params = {'self': 'Integer | Rational | Digits'}
+    returns = 'Fraction | Float'
+    properties = ['C06']
+    note = 'the inherited as_real of the literal classes that cannot spell a signed zero'
+
+    def pre(self):
+        return {'wellformed': lit_ok(self)}
+
+    def post(self, result):
+        return {'denotes': real_is(result, False, lit_value(self))}
+
+    def raises(self):
+        return {}
